@@ -14,4 +14,5 @@ def rules(ctx, tier):
         lambda: pathops.rule_keyorder(ctx),
         lambda: identity.rule_ident(ctx),
         lambda: mutation.rule_triple(ctx),
+        lambda: mutation.rule_esc(ctx),
     ]
